@@ -814,6 +814,8 @@ pub assume_specification [<{q} as PartialEq>::eq] (a: &{q}, b: &{q}) -> (r: bool
             ex = src[s:t].decode()
             if ex.startswith('&mut '):
                 raise ToolLimit(f'{fn}: R8 on &mut map')
+            if re.search(r'\.\s*iter\s*\(\s*\)\s*$', ex):
+                continue   # already in the explicit form
             if ex.startswith('&'):
                 ex = ex[1:].strip()
             edits.append((s, t, [Seg(ex + '.iter()')]))
